@@ -37,6 +37,8 @@ CLAIMS["C01"] = ("encoder/decoder agreement per schema shape: stream tokens (zig
                  "static analysis: variant-partitioned path summaries of encoder vs decoder over MIR, adapter lint, compiler type facts")
 CLAIMS["C07"] = ("for every (Value variant, schema shape) pair with an accepting path in validate_internal (98 today) the encoder has a success path whose stream tokens are the decoder's for that shape (or a listed, re-checked special form); validate dominates encode and the first sink write in every validating writer and the reject edge reaches neither; the encoder bounds enum indices by the schema",
                  "static analysis: acceptance relation x encoder/decoder wire tables (variant-partitioned path summaries) + dominance rules over MIR")
+CLAIMS["C08"] = ("the resolver's acceptance table (per reader schema shape, which writer-side Value variants Value::resolve_internal can turn into it: 600+ cells) equals the specification's promotion table - every listed promotion has a success path and nothing else resolves; every reader shape dispatches to a resolver; record resolution looks the value up by reader name, then reader aliases, then default, else error, in reader field order; enum resolution uses the reader's symbols and the reader enum's default",
+                 "static analysis: variant-partitioned path summaries of the resolver over MIR vs a specification table + call/def-use shape rules")
 NA_DEFAULT = "check under construction in this round (see DESIGN.md); not yet claimed"
 
 
